@@ -1,5 +1,6 @@
 import Arimaa.Impl.Text
 import Arimaa.Lemmas.Bits
+import Arimaa.Lemmas.SquareBits
 
 /-!
 Helper lemmas for C16 (notation of actions, squares, pieces, directions).
@@ -152,35 +153,6 @@ theorem sqNew_file_rank (i j : Fin 8) :
     sqColumnChar (i.1 + (7 - j.1) * 8) = Char.ofNat (97 + i.1) ∧
     sqRow (i.1 + (7 - j.1) * 8) = j.1 + 1 := by
   revert i j; decide
-
-/-! ### single-bit boards -/
-
-theorem sqBit_bit' (sq i : Nat) (h : sq < 64) : bit (sqBit sq) i = decide (i = sq) := by
-  rw [sqBit_bit]
-  by_cases hi : i = sq
-  · subst hi; simp [h]
-  · simp [hi]
-
-theorem sqBit_ne_zero (sq : Nat) (h : sq < 64) : sqBit sq ≠ 0 := by
-  rw [bb_ne_zero_iff]
-  exact ⟨sq, h, by simp [sqBit_bit' sq sq h]⟩
-
-theorem sqOfBit_sqBit (sq : Nat) (h : sq < 64) : sqOfBit (sqBit sq) = sq := by
-  have hz := sqBit_ne_zero sq h
-  unfold sqOfBit
-  rw [if_neg hz]
-  obtain ⟨h1, h2, h3⟩ := tz64_spec _ hz
-  rw [sqBit_bit' _ _ h] at h2
-  simpa using h2
-
-theorem sqBit_injective (s t : Nat) (hs : s < 64) (_ht : t < 64) (h : sqBit s = sqBit t) : s = t := by
-  have := sqBit_bit' t s _ht
-  rw [← h, sqBit_bit' s s hs] at this
-  simpa using this
-
-theorem squaresOf_sqBit (sq : Nat) (h : sq < 64) : squaresOf (sqBit sq) = [sq] := by
-  have : ∀ s : Fin 64, squaresOf (sqBit s.1) = [s.1] := by decide
-  exact this ⟨sq, h⟩
 
 /-! ### actions -/
 
